@@ -16,6 +16,17 @@ CHECKS = {
     },
 }
 
+CHECKS["C16"] = {
+    "module": "rules_c16",
+    "level": "other",
+    "quick_fs": ["default"],
+    "thorough_fs": ["default", "both"],
+    "technique": "MIR decision trees of Display/FromStr/to_code_const/from_code_const/PartialEq; decoded format templates; canonical code-class table",
+    "claim": "Exhaustive over the finite tables: for each of the 11 variants the text Display prints (literal, or Name({field}) decoded from the compiled format template) reaches a FromStr arm that constructs the same variant with the parsed number in the same field; unknown names fall through to Err and every Option/Result on the parameter path is `?`-propagated; all 59 to_code_const arms and 51 from_code_const arms map between codes and identifiers of one canonical class, from/to are mutually inverse on 0..=50, out-of-range is an error; every pair PartialEq declares equal lies in one canonical class and every variant equals itself. Numeric parsing itself is std's.",
+    "note": "Trusted: rustc MIR construction and format_args lowering (byte template), the exporter, the canonical identities of DESIGN.md appendix A.2, std's str::split/parse contracts.",
+    "explanation": "Structural, exhaustive over match arms: Display arms are decoded from the compiled format templates and matched against the decision tree of FromStr (string literal comparisons and the parse path); identifier conversions and PartialEq are checked arm by arm against the canonical code classes.",
+}
+
 NOT_APPLICABLE = {
     "C17": "a bijection over all values of six integer widths is a statement about (x>>1)^-(x&1) on 2^n values: the generic body is a chain of operator-trait calls with no table, pairing, ordering or ownership structure to check; proving the identity needs bit-vector reasoning (a solver) or running it, both outside static analysis (DESIGN.md section 6)",
 }
